@@ -1,8 +1,104 @@
-(** C01 — Readers never observe partial, mixed or foreign content. (interim: pool semantics adequacy) *)
+(** C01 — Readers never observe partial, mixed or foreign content.
+
+    What is kernel-checked here, over the interleaving semantics (Conc/Pool.v),
+    for every pool of participants, every schedule, every environment:
+
+    1. the library follows the WRITE DISCIPLINE: file contents are written only
+       through descriptors the writer created itself by an exclusive create or
+       O_TMPFILE (the private value file), nothing is truncated, no existing
+       file is opened read-write ([C01_*_disciplined]);
+    2. hence, from any reachable state, an inode on which no read-write
+       descriptor is open keeps its contents forever, whatever anybody does and
+       wherever anybody stalls or dies ([C01_contents_immutable_from_any_reachable_state]).
+       Published values are such inodes (the creating descriptor is closed by
+       finalize_tempfile before the link/rename; lookups open read-only, C19).
+
+    That the bytes published are the writer's COMPLETE value is the sequential
+    content of C13 and is re-checked under every explored schedule by
+    vlib/c01.py, which replays each schedule on this semantics. *)
 From Coq Require Import List NArith ZArith String Bool.
-From Kismet Require Import FS.Fs FS.Prog Conc.Pool.
+From Kismet Require Import FS.Fs FS.Prog Ops.Ops Ops.Client Spec.Wp Spec.Calm Conc.Pool Conc.PoolProofs Conc.Effect Conc.Immut Proofs.WriteDisc.
 Import ListNotations.
+
+Theorem C01_get_disciplined : forall cfg k, chko_calm (s_checker cfg) -> disciplined (cache_get cfg k).
+Proof. intros. apply wd_disciplined, wd_cache_get. assumption. Qed.
+Theorem C01_touch_disciplined : forall cfg k, disciplined (cache_touch cfg k).
+Proof. intros. apply wd_disciplined, wd_cache_touch. Qed.
+Theorem C01_set_disciplined : forall cfg k v, disciplined (cache_set cfg k v).
+Proof. intros. apply wd_disciplined, wd_cache_set. Qed.
+Theorem C01_put_disciplined : forall cfg k v, disciplined (cache_put cfg k v).
+Proof. intros. apply wd_disciplined, wd_cache_put. Qed.
+Theorem C01_write_temp_disciplined : forall b cfg k fd p, disciplined (cache_write_temp b cfg k fd p).
+Proof. intros. apply wd_disciplined, wd_cache_write_temp. Qed.
+Theorem C01_maintenance_disciplined : forall dir cap, disciplined (prune dir cap).
+Proof. intros. apply wd_disciplined, wd_prune. Qed.
+(** ensure / get_or_update: the judge and the checker do not write, populate
+    writes only the descriptor it is handed. *)
+Theorem C01_get_or_update_disciplined : forall cfg k j pop,
+  chko_calm (s_checker cfg) -> judge_calm j -> pop_own pop -> disciplined (get_or_update cfg k j pop).
+Proof. intros. apply wd_disciplined, wd_get_or_update; assumption. Qed.
+Theorem C01_ensure_disciplined : forall cfg k pop,
+  chko_calm (s_checker cfg) -> pop_own pop -> disciplined (ensure cfg k pop).
+Proof. intros. apply wd_disciplined, wd_ensure; assumption. Qed.
+
+(** The callbacks and temp-file clients that the correspondence harness runs
+    (vlib/c01.py and every other check) satisfy these hypotheses. *)
+Theorem C01_harness_callbacks_admissible :
+  (forall pk, pop_own (client_populate pk)) /\ (forall a n, judge_calm (client_judge a n)) /\
+  chk_calm chk_byteeq /\ chk_calm chk_panic /\ (forall b, chk_calm (chk_count b)).
+Proof.
+  split; [exact client_populate_own|]. split; [exact client_judge_calm|].
+  split; [exact chk_byteeq_calm|]. split; [exact chk_panic_calm|exact chk_count_calm].
+Qed.
+Theorem C01_temp_file_client_disciplined : forall which cfg k src chunks,
+  disciplined (client_set_temp which cfg k src chunks).
+Proof. intros. apply wd_disciplined, wd_client_set_temp. Qed.
+
+Theorem C01_contents_immutable_from_any_reachable_state :
+  forall A (ps : list (prog A * oracle)) f0 sched1 sched2 i D,
+  fds_wf f0 -> Forall (fun po => disciplined (fst po)) ps ->
+  let st1 := run_sched sched1 (spawn_all ps ([], f0)) in
+  data (snd st1) i = Some D -> i < next_ino (snd st1) -> NoRW i (snd st1) ->
+  data (snd (run_sched sched2 st1)) i = Some D.
+Proof. exact @immutable_from_any_reachable_state. Qed.
+
+Theorem C01_existing_contents_immutable :
+  forall A (ps : list (prog A * oracle)) f sched i D,
+  data f i = Some D -> i < next_ino f -> fds_wf f -> NoRW i f ->
+  Forall (fun po => disciplined (fst po)) ps ->
+  data (snd (run_sched sched (spawn_all ps ([], f)))) i = Some D.
+Proof. exact @immutable_spawned. Qed.
+
 (** A finished participant never moves again, whatever the schedule. *)
 Theorem C01_finished_is_final : forall A (t : thread A) pool f i,
   nth_error pool i = Some t -> finished (th_prog t) = true -> pool_step i (pool, f) = (pool, f).
 Proof. intros A t pool f i H Hf. unfold pool_step. rewrite H, Hf. reflexivity. Qed.
+
+(** Non-vacuity: a directory holding key "a" (inode 2, contents "A"); one
+    participant overwrites the key with set (value file "v", inode 3) while
+    another looks it up, interleaved call by call.  The premises hold, and the
+    old inode indeed still reads "A" although the name now points elsewhere. *)
+Definition ex_fs : fs :=
+  let mk (f : fs) (p : path) (c : N) :=
+    let '(f1, i) := alloc_inode f (mkInode false [c] 292 100%Z 50%Z 1 true) in
+    set_names f1 ((p, i) :: names f1) in
+  let '(f0, d) := alloc_inode empty_fs (mkInode true [] 493 0%Z 0%Z 2 true) in
+  let f0 := set_names f0 ((["w"%string], d) :: names f0) in
+  mk (mk f0 ["w"; "a"]%string 65%N) ["v"%string] 66%N.
+Definition ex_cfg : stack_cfg := mkStack 0 (Some (FPlain ["w"%string] 300)) [] None false ["systmp"%string].
+Definition ex_oracle : oracle := mkOracle [1000; 1001; 1002]%Z [] [] [] [] None 0 1%Z Relatime.
+Definition ex_key := mkKey "a"%string 1 2.
+Definition ex_progs : list (prog (outcome unit) * oracle) :=
+  [ (cache_set ex_cfg ex_key ["v"%string], ex_oracle);
+    (bind (cache_get ex_cfg ex_key) (fun _ => Ret (Ok tt)), ex_oracle) ].
+Example C01_nonvacuous :
+  let st := run_sched [0; 1; 0; 0; 1; 0; 0; 0; 1; 0; 0; 0; 0]%nat (spawn_all ex_progs ([], ex_fs)) in
+  data ex_fs 2 = Some [65%N] /\ fds_wf ex_fs /\ NoRW 2 ex_fs
+  /\ data (snd st) 2 = Some [65%N]
+  /\ option_map (fun i => data (snd st) i) (name_of (snd st) ["w"; "a"]%string) = Some (Some [66%N])
+  /\ map (fun t => finished (th_prog t)) (fst st) = [true; true].
+Proof.
+  split; [reflexivity|]. split; [intros d ka H; vm_compute in H; discriminate H|].
+  split; [intros d H; vm_compute in H; discriminate H|].
+  vm_compute. repeat split.
+Qed.
